@@ -190,6 +190,10 @@ def machine_spec(
             everything[0]["async"] = True
     elif async_mode == "one" and everything:
         draw(st.sampled_from(everything))["async"] = True
+    elif async_mode == "late-only":
+        # the first coroutines arrive with a listener attached after construction
+        for c in everything:
+            c["async"] = c["prov"] in late
     if any(c["async"] for c in everything):
         for c in cbs:
             if c["sends"]:
@@ -197,6 +201,9 @@ def machine_spec(
         for c in cbs:
             if c["async"]:
                 c["yields"] = draw(st.sampled_from([0, 0, 1, 2]))
+        for g in gdefs:
+            if g.get("async"):
+                g["yields"] = draw(st.sampled_from([0, 1, 2, 4]))
     for c in cbs:  # defs sharing one function agree on everything
         f = first_def[(c["name"], c["prov"])]
         c["async"], c["yields"] = f["async"], f["yields"]
